@@ -1,6 +1,7 @@
 import Octo.Drv.OpsCodec
 import Octo.Drv.C19
 import Octo.Model.OpTime
+import Octo.Drv.C16
 /-! C18 driver (single-input nodes): the same operator models as C15, and the oracle — monotone
     watermarks, no late records, and for the event-time buffer equality with the naive `bufSpec` —
     evaluated on what the real nodes emitted. -/
@@ -11,6 +12,7 @@ def model (toks : List String) : String :=
   match toks with
   | "sj" :: _ => Octo.Drv.C19.model toks     -- the join nodes under a chosen interleaving (shared with C19)
   | "oj" :: _ => Octo.Drv.C19.model toks
+  | "gb" :: _ => Octo.Drv.C16.model toks     -- the group-by node under early-firing triggers (shared with C16)
   | _ => Octo.Drv.Ops.model toks
 
 def joinedHasWm : Node → Bool
@@ -88,8 +90,34 @@ def judgeJoin (toks : List String) (out : List String) : String :=
           else "ok"
       | _ => "ok"   -- panics / bad schedules are C19's subject
 
+/-- the group-by node under COUNTING / ON WATERMARK triggers (every key may fire many times, each firing retracts what the
+    previous one sent): given a source with monotone watermarks and no late records, the emitted sequence has monotone
+    watermarks and nothing at or below a watermark already emitted -/
+def judgeGb (toks : List String) (out : List String) : String :=
+  match toks with
+  | "gb" :: rest =>
+    match Octo.Drv.Trig.parseGb rest with
+    | none => "bad unparsable-op"
+    | some op =>
+      if !(monoB (wms op.stream) && noLateFromB [] op.stream) then "ok"   -- outside the property's hypothesis
+      else
+        match out with
+        | "ok" :: ms =>
+          match Octo.Codec.parseMsgs ms with
+          | none => "bad unparsable-impl-output"
+          | some om =>
+            if !monoB (wms om) then "bad watermarks-go-backwards"
+            else if !noLateFromB [] om then
+              (if lateOnlyInFinalBatch om then
+                "known ctgb-end-of-stream-flush-late the end-of-stream flush stamps rows with their key's event time below forwarded watermarks"
+               else "bad late-record-created")
+            else "ok"
+        | _ => "ok"
+  | _ => "ok"
+
 def judge (toks : List String) (out : List String) : String :=
   match toks with
+  | "gb" :: _ => judgeGb toks out
   | "sj" :: _ => judgeJoin toks out
   | "oj" :: _ => judgeJoin toks out
   | _ => judgeOps toks out
